@@ -87,6 +87,18 @@ def shipped_modules():
     return sorted(f for f in os.listdir(d) if f.endswith(".py") and f != "__init__.py")
 
 
+def _expected_language_map(language_order):
+    """what dateparser_scripts/order_languages.generate_language_map derives (re-stated here: importing that script
+    changes the working directory and needs network clients): base code -> [base, base-Script, ...] in sorted order"""
+    out = {}
+    for lang in sorted(language_order):
+        if "-" not in lang:
+            out[lang] = [lang]
+        else:
+            out.setdefault(lang.split("-")[0], []).append(lang)
+    return out
+
+
 def _entry(e):
     name, info = e
     return (name, info["regex"].pattern, int(info["regex"].flags), info["offset"])
@@ -153,6 +165,11 @@ def check_case(case):
                     sorted(set(lo) - mods), sorted(mods - set(lo)))
             elif set(li.language_locale_dict) != mods:
                 fail = "language_locale_dict keys != shipped modules: %s" % sorted(set(li.language_locale_dict) ^ mods)
+            elif _expected_language_map(lo) != dict(li.language_map):
+                exp = _expected_language_map(lo)
+                diff = sorted(k for k in set(exp) | set(li.language_map) if exp.get(k) != li.language_map.get(k))
+                fail = "language_map differs from what the index generator derives from language_order for keys %s (e.g. %r: shipped %r, derived %r)" % (
+                    diff[:8], diff[0], li.language_map.get(diff[0]), exp.get(diff[0]))
             else:
                 union = set()
                 for k, v in li.language_map.items():
